@@ -370,6 +370,9 @@ pub fn run_case(c: &Case, known: &dyn Fn(&str) -> bool) -> CaseResult {
     if !c.sender.oti.is_constructible() {
         return Ok(CaseInfo::excluded("not-constructible"));
     }
+    if !session_can_carry_fdt(&c.sender, &c.objs) {
+        return Ok(CaseInfo::excluded("domain: FDT does not fit the session OTI (publish refused)"));
+    }
     // transfer lengths are only known after building: build once to evaluate signatures
     let mut tls = vec![];
     for o in &c.objs {
